@@ -492,10 +492,6 @@ def random_url(rnd):
     return host, (ui, path, q, f, port)
 
 
-def build5(host, ui="", path="", q="", f="", port=""):
-    return build(host, ui, path, q, f, port)
-
-
 def job_random(ctx, seed, n, tier):
     rnd = random.Random(seed)
     forms = FORMS + ("HTTP",)
@@ -543,7 +539,7 @@ def make_jobs(tier, seed):
     for site in SITE_DOMAINS:
         jobs.append((tier, seed, "site", site))
     jobs.append((tier, seed, "simple"))
-    nrand, per = (16000, 1000) if tier == "quick" else (480000, 6000)
+    nrand, per = (16000, 1000) if tier == "quick" else (320000, 5000)
     for k in range(nrand // per):
         jobs.append((tier, seed, "random", seed * 1000003 + k, per))
     # long jobs first
